@@ -89,7 +89,7 @@ def replay(drv, model, ops, oracle_factory=None, stop_at_first=True, env=None):
         for i, op in enumerate(ops):
             ri, rm = pair.ask(op)
             out.ops += 1
-            if ri.startswith("panic") or ri in ("hang", "dead"):
+            if ri.startswith("panic") or ri in ("hang", "dead", "spin"):
                 out.crashes.append((i, op, ri))
                 if stop_at_first:
                     break
